@@ -180,8 +180,49 @@ def random_arrays(ctx):
                         ctx.fail("random-blocks-share-stream", f"two blocks of shape {shp} hold identical random numbers", prog)
 
 
+def k_random_streams(ctx):
+    """K: the Philox key the real cubed.random._random derives for every block of drawn block grids (1-4-d) minus the root seed
+    vs Model.Geometry.ravel (np.ravel_multi_index): the stream id of a block is its row-major offset"""
+    import itertools
+
+    import numpy.random as npr
+
+    import cubed.random as cr
+    from harness.framework import cnatlist
+
+    cases = []
+    real_philox = npr.Philox
+    seen = []
+
+    class RecordingPhilox(real_philox):
+        def __init__(self, *a, key=None, **kw):
+            seen.append(key)
+            super().__init__(*a, key=key, **kw)
+
+    npr.Philox = RecordingPhilox
+    try:
+        for _ in range(ctx.n(40, 400)):
+            nd = ctx.rng.choice([1, 2, 3, 3, 4])
+            nb = [ctx.rng.randint(1, 4) for _ in range(nd)]
+            root = ctx.rng.getrandbits(64)
+            ids = []
+            for b in itertools.product(*[range(n) for n in nb]):
+                seen.clear()
+                cr._random(np.empty((1,) * nd), numblocks=tuple(nb), root_seed=root, block_id=tuple(b))
+                ids.append(int(seen[-1]) - root)
+            ctx.evaluations += 1
+            if len(ids) >= 4:
+                ctx.nt(("random-grid", tuple(nb)))
+            cases.append({"expr": f"natlist_eqb (map (ravel {cnatlist(nb)}) (blocks {cnatlist(nb)})) {cnatlist(ids)}", "desc": {"numblocks": nb},
+                          "show": f"map (ravel {cnatlist(nb)}) (blocks {cnatlist(nb)})"})
+    finally:
+        npr.Philox = real_philox
+    ctx.corr("random_stream_ids", "Model.Util Model.Geometry", cases, chunk=200)
+
+
 def run(ctx):
     warnings.filterwarnings("ignore")
+    k_random_streams(ctx)
     N = ctx.n(72, 1800)
     per = 6
     cases = pmap(ctx, work, [per] * (N // per), procs=12)
